@@ -23,7 +23,14 @@ RULE = ("case = pair of HandshakeSettings restrictions constructed by "
         "flavour (certificate with 11 server key types, SRP, SRP+cert, "
         "anonymous) x client auth x ALPN/NPN/SNI; oracle = equality of both "
         "endpoints' view vectors and containment of every negotiated "
-        "parameter in both raw policies; non-trivial = the two policies "
+        "parameter in both raw policies; a directed grid on the widest "
+        "policies varies one dimension at a time (key-size window x every "
+        "credential type, single cipher / MAC / key exchange / group / "
+        "hash); a third of the cases add a second connection offering the "
+        "first one's session (cache, ticket, TLS 1.3 PSK) after one side's "
+        "policy was narrowed so that it excludes what was negotiated - "
+        "resumed or not, the second connection must lie in the policies in "
+        "force; non-trivial = the two policies "
         "differ in at least one dimension and the handshake was attempted "
         "with validated settings; distinct = hash(case)")
 ASSUMPTIONS = [
@@ -105,6 +112,12 @@ def check(case):
         sopts["settings"].validate()
     except ValueError as e:
         return good(nt=False, labels=labels + ["invalid-settings"])
+    if case.get("second"):
+        from tlslite.api import SessionCache
+        case = dict(case)
+        case["_cache"] = sopts["sessionCache"] = SessionCache()
+        if case["second"].get("tickets"):
+            sopts["settings"].ticketKeys = [bytearray(b"K" * 32)]
     p = sc.connect(copts, sopts)
     diff = differs(case["c"], case["s"])
     nt = bool(diff)
@@ -145,10 +158,135 @@ def check(case):
         labels.append("alert=" + describe_exc(ce if isinstance(
             ce, TLSLocalAlert) else se))
         return good(nt=nt, labels=labels)
-    labels.append("completed")
+    r = contain(p, case["c"], case["s"], case, nt, labels)
+    if r is not None:
+        return r
+    if case.get("second"):
+        r = second(p, case, nt, labels)
+        if r is not None:
+            return r
+    return good(nt=nt, labels=labels)
+
+
+NARROW = ["same", "drop_cipher", "drop_mac", "lower_max", "raise_min",
+          "drop_kx", "no_etm", "no_ems", "drop_group", "only_other_cipher"]
+
+
+def narrowed(pol, how, conn):
+    """A copy of ``pol`` that no longer admits what ``conn`` negotiated in
+    the named dimension (still a valid policy)."""
+    import copy
+    q = copy.deepcopy(pol)
+    su = iana.SUITES[conn.session.cipherSuite]
+    ver = tuple(conn.version)
+
+    def without(key, val, pool):
+        rest = [x for x in q[key] if x != val]
+        if not rest:
+            rest = [x for x in pool if x != val][:2]
+        q[key] = rest
+    if how == "drop_cipher":
+        without("cipherNames", su.cipher_setting, lattice.CIPHERS)
+    elif how == "only_other_cipher":
+        q["cipherNames"] = [x for x in lattice.CIPHERS
+                            if x != su.cipher_setting][:3]
+    elif how == "drop_mac":
+        without("macNames", su.mac_setting, lattice.MACS)
+    elif how == "drop_kx" and not su.tls13:
+        without("keyExchangeNames", su.kx_setting, lattice.KX_ALL)
+    elif how == "lower_max" and ver > (3, 0):
+        q["maxVersion"] = [ver[0], ver[1] - 1]
+        q["minVersion"] = min(q["minVersion"], q["maxVersion"])
+    elif how == "raise_min" and ver < (3, 4):
+        q["minVersion"] = [ver[0], ver[1] + 1]
+        q["maxVersion"] = max(q["maxVersion"], q["minVersion"])
+    elif how == "no_etm":
+        q["useEncryptThenMAC"] = False
+    elif how == "no_ems":
+        q["useExtendedMasterSecret"] = False
+        q["requireExtendedMasterSecret"] = False
+    elif how == "drop_group" and conn.ecdhCurve is not None:
+        g = GROUP_NAMES.get(conn.ecdhCurve)
+        if g in q["eccCurves"]:
+            without("eccCurves", g, lattice.CURVES)
+        if g in q["dhGroups"]:
+            without("dhGroups", g, lattice.DHGROUPS + ["ffdhe4096"])
+        q["keyShares"] = [k for k in q.get("keyShares", [])
+                          if k in q["eccCurves"] + q["dhGroups"]]
+    return q
+
+
+def second(p, case, nt, labels):
+    """A second connection that offers the first one's session while one
+    side's policy no longer admits what was negotiated: whatever happens
+    (resumption, full handshake, clean failure) must respect the policies
+    in force *now*."""
+    sec = case["second"]
+    how, who = sec["how"], sec["who"]
+    if p.c.version == (3, 4) or sec.get("tickets"):
+        sc.do_write(p, "s", b"x")
+        sc.read_all(p, "c")
+    sess = p.c.session
+    case2 = dict(case)
+    case2["c"] = narrowed(case["c"], how, p.c) if who == "c" else case["c"]
+    case2["s"] = narrowed(case["s"], how, p.c) if who == "s" else case["s"]
+    copts, sopts = lattice.build_opts(case2)
+    try:
+        copts["settings"].validate()
+        sopts["settings"].validate()
+    except ValueError:
+        return None
+    copts["session"] = sess
+    sopts["sessionCache"] = case["_cache"]
+    if sec.get("tickets"):
+        sopts["settings"].ticketKeys = [bytearray(b"K" * 32)]
+    DET.reseed("C03-second", case.get("salt", 0), how, who)
+    labels.append("second=%s:%s" % (who, how))
+    try:
+        p2 = sc.connect(copts, sopts)
+    except ValueError:
+        # the client API refuses a session that does not fit its settings
+        labels.append("second-refused-by-api")
+        return None
+    if not p2.both_ok:
+        ce, se = p2.co.exc, p2.so.exc
+        if p2.co.ok or p2.so.ok:
+            return None
+        if isinstance(ce, ValueError):
+            # the client API refuses a session that no longer fits the
+            # caller's settings (documented precondition)
+            labels.append("second-refused-by-api")
+            return None
+        if not (isinstance(ce, TLSLocalAlert) or
+                isinstance(se, TLSLocalAlert)):
+            from vlib.driver import exc_site
+            crash = [e for e in (ce, se) if not isinstance(
+                e, (TLSAlert, TLSAbruptCloseError, OSError))]
+            if crash:
+                return bad("second:fails-without-local-alert:%s@%s" % (
+                    type(crash[0]).__name__, exc_site(crash[0])),
+                    "client %r server %r" % (p2.co, p2.so), nt=nt,
+                    labels=labels)
+        labels.append("second-failed")
+        return None
+    resumed = bool(p2.c.resumed)
+    labels.append("second-resumed" if resumed else "second-full")
+    r = contain(p2, case2["c"], case2["s"], case2, True, labels,
+                resumed=resumed)
+    if r is not None:
+        r.sig = "second:%s:" % ("resumed" if resumed else "full") + r.sig
+        r.detail = "after narrowing %s by %s: %s" % (who, how, r.detail)
+    return r
+
+
+def contain(p, cpol, spol, case, nt, labels, resumed=False):
+    """agreement + containment of a completed connection; None if fine"""
+    labels.append("completed" if not resumed else "completed-resumed")
     # (a) agreement
     vc, vs = view(p.c), view(p.s)
     for k in sorted(vc):
+        if resumed and k in ("serverCertChain", "clientCertChain"):
+            continue
         if vc[k] != vs[k]:
             return bad("views-differ:%s" % k,
                        "client %r / server %r" % (
@@ -161,7 +299,7 @@ def check(case):
     if s is None:
         return bad("unknown-suite-negotiated", hex(sid), labels=labels)
     labels.append("ver=" + sc.VERNAME[ver])
-    for who, pol in (("client", case["c"]), ("server", case["s"])):
+    for who, pol in (("client", cpol), ("server", spol)):
         if not (tuple(pol["minVersion"]) <= ver <= tuple(pol["maxVersion"])):
             side = "above-max" if ver > tuple(pol["maxVersion"]) \
                 else "below-min"
@@ -191,7 +329,7 @@ def check(case):
     grp = p.c.ecdhCurve
     if grp is not None:
         gname = GROUP_NAMES.get(grp)
-        for who, pol in (("client", case["c"]), ("server", case["s"])):
+        for who, pol in (("client", cpol), ("server", spol)):
             allowed = list(pol["eccCurves"]) + list(pol["dhGroups"])
             if gname not in allowed:
                 return bad("group-outside-policy:%s" % who,
@@ -201,7 +339,7 @@ def check(case):
     # DH size (<= TLS 1.2)
     dhs = p.c.dhGroupSize
     if dhs is not None:
-        c = case["c"]
+        c = cpol
         if not (c["minKeySize"] <= dhs <= c["maxKeySize"]):
             return bad("dh-size-outside-client-window",
                        "DH prime of %d bits, client window %d..%d" % (
@@ -226,24 +364,27 @@ def check(case):
     # signature scheme used by the server (TLS >= 1.2)
     sa = p.c.serverSigAlg
     if sa is not None and ver >= (3, 3):
-        err = sig_in_policy(sa, case["c"])
+        err = sig_in_policy(sa, cpol)
         if err:
             return bad("sigalg-outside-client-policy:" + err[0], err[1],
                        nt=nt, labels=labels)
     # EMS / EtM
     ems = bool(p.c.session.extendedMasterSecret)
     if ver < (3, 4):
-        if (case["c"]["requireExtendedMasterSecret"] or
-                case["s"]["requireExtendedMasterSecret"]) and not ems:
+        if (cpol["requireExtendedMasterSecret"] or
+                spol["requireExtendedMasterSecret"]) and not ems:
             return bad("ems-required-but-not-negotiated", "", nt=nt,
                        labels=labels)
-        if ems and not (case["c"]["useExtendedMasterSecret"] and
-                        case["s"]["useExtendedMasterSecret"]):
+        # (a resumed connection inherits the master secret, and with it
+        # how that secret was derived: not a new negotiation)
+        if ems and not resumed and not (
+                cpol["useExtendedMasterSecret"] and
+                spol["useExtendedMasterSecret"]):
             return bad("ems-negotiated-against-policy", "", nt=nt,
                        labels=labels)
         etm = bool(p.c.session.encryptThenMAC)
-        if etm and not (case["c"]["useEncryptThenMAC"] and
-                        case["s"]["useEncryptThenMAC"]):
+        if etm and not resumed and not (cpol["useEncryptThenMAC"] and
+                        spol["useEncryptThenMAC"]):
             return bad("etm-negotiated-against-policy", "", nt=nt,
                        labels=labels)
     # ALPN: negotiated protocol must be offered by both
@@ -263,7 +404,9 @@ def check(case):
                                        p.s._send_record_limit,
                                        p.c._recv_record_limit), nt=nt,
                    labels=labels)
-    return good(nt=nt, labels=labels)
+    return None
+
+
 
 
 def sig_in_policy(sa, pol):
@@ -316,8 +459,72 @@ def scheme_in_policy(name, pol):
     return None
 
 
+def explicit(tier, seed):
+    """Directed grid on top of the widest policies: one dimension varied at
+    a time, for every credential type and version."""
+    L = lattice
+    vers = [((3, 3), (3, 3)), ((3, 4), (3, 4)), ((3, 1), (3, 1))]
+
+    def base(v, cred, ccred=None):
+        c, s = L.full_side("client", *v), L.full_side("server", *v)
+        case = {"c": c, "s": s, "flavour": "cert", "cred": cred,
+                "ccred": ccred, "reqCert": bool(ccred), "c_alpn": None,
+                "s_alpn": None, "c_npn": None, "s_npn": None, "sni": None,
+                "salt": seed % 4}
+        return case
+    # key-size window of the verifier x type and size of the peer's key
+    for v in vers:
+        for lo, hi in L.KEYSIZES:
+            for cred in L.SERVER_CREDS:
+                case = base(v, cred)
+                case["c"]["minKeySize"], case["c"]["maxKeySize"] = lo, hi
+                if lo > 2048:
+                    # keep the DH group inside the window, so that only the
+                    # certificate key decides
+                    case["c"]["dhGroups"] = ["ffdhe3072"]
+                    case["s"]["dhGroups"] = ["ffdhe3072"]
+                if hi < 2048:
+                    case["c"]["keyExchangeNames"] = [
+                        k for k in L.KX_ALL if not k.startswith("dh")]
+                yield case
+            for ccred in [x for x in L.CLIENT_CREDS if x]:
+                case = base(v, "rsa", ccred)
+                case["s"]["minKeySize"], case["s"]["maxKeySize"] = lo, hi
+                yield case
+    # one cipher / MAC / key exchange / group / hash at a time on one side
+    for v in vers[:2]:
+        for dim, pool in (("cipherNames", L.CIPHERS), ("macNames", L.MACS),
+                          ("keyExchangeNames", L.KX_CERT),
+                          ("eccCurves", L.CURVES), ("rsaSigHashes", L.HASHES),
+                          ("ecdsaSigHashes", L.HASHES)):
+            for x in pool:
+                for who in "cs":
+                    for cred in ("rsa", "ecdsa"):
+                        case = base(v, cred)
+                        case[who][dim] = [x]
+                        yield case
+    # resumption under a narrowed policy, every narrowing x mechanism
+    for v in vers:
+        for how in NARROW:
+            for who in "sc":
+                for tickets in (False, True):
+                    case = base(v, "rsa")
+                    case["second"] = {"how": how, "who": who,
+                                      "tickets": tickets}
+                    yield case
+
+
+@st.composite
+def with_second(draw):
+    case = draw(lattice.pair(flavours=("cert", "cert", "cert", "srp")))
+    case["second"] = {"how": draw(st.sampled_from(NARROW)),
+                      "who": draw(st.sampled_from(["s", "s", "c"])),
+                      "tickets": draw(st.booleans())}
+    return case
+
+
 def strategy(tier):
-    return lattice.pair()
+    return st.one_of(lattice.pair(), lattice.pair(), with_second())
 
 
 def budget(tier):
